@@ -20,6 +20,7 @@ EXPLANATION = (
     "loop log flows into a LOOP_BOUND warning in the function that created it (setUp, test, invariant target "
     "call); cut reports must not go through the process-wide de-duplicating logger; an unsupported opcode "
     "raises HalmosException (stuck -> ERROR). It does not run programs with loops."
+    " Also decided: nothing replaces or empties an engine's loop log after its construction."
 )
 ASSUMPTIONS = ["logging delivers warn()/error() records", "C05 R05.1: stuck paths exclude PASS"]
 
